@@ -31,6 +31,38 @@ let () = run_lines (fun toks ->
     outp (Model.run_poly (zs p) (ns op) (ps ir) (ps ia) (ps ib) (ps ic) (poly_of vr) (poly_of va) (poly_of vb) (poly_of vc))
   | ["pdivmod"; p; iq; ir; ia; ib; vq; vr; va; vb] ->
     outp (Model.run_pdivmod (zs p) (ps iq) (ps ir) (ps ia) (ps ib) (poly_of vq) (poly_of vr) (poly_of va) (poly_of vb))
+  (* rm <mg 0|1> <op> <W> <p> <p1> <r> <ir> <ia> <ib> <ic> <vr> <va> <vb> <vc> <w>   -> r a b c
+       (op = ModelRm.rm_op number 0..29, 100 = sub(a,b,c) before 58e2703; w = native word / exponent, may be negative)
+     rudiv <one_limb 0|1> <W> <iq> <ir> <ia> <ib> <vq> <vr> <va> <vb>                 -> q r a b
+     rudivop <op> <one_limb 0|1> <W> <ix> <iy> <ia> <ib> <vx> <vy> <va> <vb>          -> x y a b [rword]
+       (op 0 div  1 div_q(x,a,b)  2 div_r(x,a,b)  3 div_q(x,a,T vb)  4 div(x,T& r,a,T vb)  5 div_r(T& r,a,T vb)  6 seeded udiv_qrnd) *)
+  | ["rm"; mg; op; w; p; p1; r; ir; ia; ib; ic; vr; va; vb; vc; wd] ->
+    out (Model.run_rm (mg = "1") (zs w) (zs p) (zs p1) (zs r) (ns op) (ps ir) (ps ia) (ps ib) (ps ic) (zs vr) (zs va) (zs vb) (zs vc) (zs wd))
+  | ["rudiv"; one; w; iq; ir; ia; ib; vq; vr; va; vb] ->
+    out (Model.run_rudiv (one = "1") (zs w) (ps iq) (ps ir) (ps ia) (ps ib) (zs vq) (zs vr) (zs va) (zs vb))
+  | ["rudivop"; op; one; w; iq; ir; ia; ib; vq; vr; va; vb] ->
+    out (Model.run_rudiv_op (ns op) (one = "1") (zs w) (ps iq) (ps ir) (ps ia) (ps ib) (zs vq) (zs vr) (zs va) (zs vb))
+  (* ext <p> <irred> <op> ir ia ib ic vr va vb vc      Extension<BaseField>: op 0 add 1 sub 2 mul 3 div 4 neg 5 inv 6 axpy 7 axmy
+     8 maxpy 9 axpyin 10 axmyin 11 maxpyin 12 addin 13 subin 14 mulin 15 divin 16 negin 17 invin -> final r a b c
+     extref: the same with maxpy/maxpyin/axmy/axmyin taking their operands by const reference (seeded change C15-m6)
+     polyb <p> <k> <op> ir ia ib ic vr va vb vc        op 0 lcm(r,a,b) 1 divin(r,a) 2 modin(r,a) 3 powmod(r,a,k,b) 4 add(r,a,k)
+     5 sub(r,a,k) 6 sub(r,k,a) 7 div(r,a,k) -> final r a b c
+     pdivmodin <p> iq ir ib vq vr vb -> q r b | pgcdx <p> if is it ia ib vf vs vt va vb -> f s t a b
+     ppdivmod <p> iq ir ia ib vq vr va vb -> q r a b m | ppmod <p> ir ia ib vr va vb -> r a b m   (m as a constant polynomial) *)
+  | ["ext"; p; irred; op; ir; ia; ib; ic; vr; va; vb; vc] ->
+    outp (Model.run_ext (zs p) (poly_of irred) (ns op) (ps ir) (ps ia) (ps ib) (ps ic) (poly_of vr) (poly_of va) (poly_of vb) (poly_of vc))
+  | ["extref"; p; irred; op; ir; ia; ib; ic; vr; va; vb; vc] ->
+    outp (Model.run_ext_byref (zs p) (poly_of irred) (ns op) (ps ir) (ps ia) (ps ib) (ps ic) (poly_of vr) (poly_of va) (poly_of vb) (poly_of vc))
+  | ["polyb"; p; k; op; ir; ia; ib; ic; vr; va; vb; vc] ->
+    outp (Model.run_polyB (zs p) (zs k) (ns op) (ps ir) (ps ia) (ps ib) (ps ic) (poly_of vr) (poly_of va) (poly_of vb) (poly_of vc))
+  | ["pdivmodin"; p; iq; ir; ib; vq; vr; vb] ->
+    outp (Model.run_pdivmodin (zs p) (ps iq) (ps ir) (ps ib) (poly_of vq) (poly_of vr) (poly_of vb))
+  | ["pgcdx"; p; jf; js; jt; ja; jb; vf; vs; vt; va; vb] ->
+    outp (Model.run_pgcdx (zs p) (ps jf) (ps js) (ps jt) (ps ja) (ps jb) (poly_of vf) (poly_of vs) (poly_of vt) (poly_of va) (poly_of vb))
+  | ["ppdivmod"; p; iq; ir; ia; ib; vq; vr; va; vb] ->
+    outp (Model.run_ppdivmod (zs p) (ps iq) (ps ir) (ps ia) (ps ib) (poly_of vq) (poly_of vr) (poly_of va) (poly_of vb))
+  | ["ppmod"; p; ir; ia; ib; vr; va; vb] ->
+    outp (Model.run_ppmod (zs p) (ps ir) (ps ia) (ps ib) (poly_of vr) (poly_of va) (poly_of vb))
   | ["gcdext"; a; b] ->
     let ((g, s), t) = Model.gcdext (zs a) (zs b) in out [g; s; t]
   | ["invmod"; a; p] -> string_of_z (Model.invmod (zs a) (zs p))
